@@ -326,7 +326,7 @@ func randomHistory(r *lib.Rng, pipeline string, skipTx bool, builtins []Step, mo
 				r2.apply(i, x, skipTx)
 			}
 			r2.apply(len(in.Steps), s, skipTx)
-			if r2.class() == "" {
+			if r2.class() == "" { // neither a known class nor the (fixed) self-target label
 				break
 			}
 			if try == 20 {
